@@ -44,15 +44,20 @@ Theorem convert_nonhelix_by_table : forall seq out,
 Proof. intros seq out. apply convert_nonhelix_lemma. exact patterns_well_formed. Qed.
 Print Assumptions convert_nonhelix_by_table.
 
-(* Each maximal helical run is rewritten by the documented start/end/short-helix rule.
-   [convert_run_rule_partial]: proved for every DSSP string of length <= BOUND (= 15) by an
-   exhaustive kernel computation over all 2^16 - 1 helix/non-helix patterns, lifted to all
-   class strings; for longer strings the equality is checked by the correspondence runs, and
-   length / non-helix positions are proved for all lengths above. *)
-Theorem convert_run_rule_partial : forall seq,
+(* Each maximal helical run is rewritten by the documented start/end/short-helix rule, for DSSP strings of EVERY
+   length: the nine patterns regenerated from the source are of the shapes .h. / .h / h. ; on a string of dot-terminated
+   segments str.replace and the "while pattern in s" loop act segment by segment (C17/General.v), and their composition
+   on a run of n H is the documented text (3..3 up to four, 13332, 113322, 1113222, 1111 H.. 2222 from eight on). *)
+Theorem convert_run_rule : forall seq, convert ss_cg pats seq = convert_spec ss_cg seq.
+Proof. exact convert_run_rule_lemma. Qed.
+Print Assumptions convert_run_rule.
+
+(* An independent kernel computation of the same equality over all 2^16 - 1 helix/non-helix patterns up to length
+   BOUND (= 15), kept as a cross-check of the general proof. *)
+Theorem convert_run_rule_bounded_crosscheck : forall seq,
   (List.length seq <= BOUND)%nat -> convert ss_cg pats seq = convert_spec ss_cg seq.
 Proof. exact convert_run_rule_bounded_lemma. Qed.
-Print Assumptions convert_run_rule_partial.
+Print Assumptions convert_run_rule_bounded_crosscheck.
 
 (* non-vacuity *)
 Example nonvacuous :
